@@ -2666,6 +2666,7 @@ MODULE_GROUPS = [("Steps", "steps", STEP_MODULES), ("Setters", "setters", SETTER
 
 def step_module_props():
     d = {"layout." + k: set(v) for k, v in COUNTER_PROPS.items()}
+    d.update({"layout.flag_" + k: set(v) for k, v in FLAG_PROPS.items()})
     d.update({"fingerprint." + k: set(v) for k, v in FP_PROPS.items()})
     d.update(_module_props())
     return d
@@ -2741,6 +2742,14 @@ COUNTER_PROPS = {
 }
 
 
+# the descriptor's and the object's flags: `bool` (any non-zero value stored means true; a 1-bit bit-field would keep bit 0 only)
+FLAG_FIELDS = [("cat_command", "cmd", ["need_all_vars", "only_test", "disable", "implicit_write"]), ("cat_command_group", "group", ["disable"]),
+               ("cat_object", "obj", ["cr_flag", "hold_state_flag", "implicit_write_flag"])]
+FLAG_PROPS = {"cmd_need_all_vars": {"C04", "C05"}, "cmd_only_test": {"C09", "C19"}, "cmd_disable": {"C02", "C09", "C19"},
+              "cmd_implicit_write": {"C02", "C06"}, "group_disable": {"C02", "C09", "C19"}, "obj_cr_flag": {"C20"},
+              "obj_hold_state_flag": {"C14", "C18"}, "obj_implicit_write_flag": {"C02"}}
+
+
 def t21(ast):
     recs = {}
     for n in ast["inner"]:
@@ -2763,6 +2772,16 @@ def t21(ast):
             rep["layout." + key] = "translated" if w == 64 else \
                 "anomaly: %s.%s is declared `%s` (%s): the model keeps it as an unbounded counter, which describes a 64-bit size_t only" % (
                     rec, fld, ty.get("qualType"), ("%d bits" % w) if w else "not an unsigned integer type")
+    for rec, short, fields in FLAG_FIELDS:
+        for n in ast["inner"]:
+            if n.get("kind") == "RecordDecl" and n.get("name") == rec and n.get("inner"):
+                for f in n["inner"]:
+                    if f.get("kind") == "FieldDecl" and f.get("name") in fields:
+                        ty = f.get("type", {})
+                        isbool = (ty.get("desugaredQualType") or ty.get("qualType")) in ("bool", "_Bool") and not f.get("isBitfield")
+                        rep["layout.flag_%s_%s" % (short, f["name"])] = "translated" if isbool else \
+                            "anomaly: %s.%s is declared `%s`%s: the model keeps it as a Boolean that is true for every non-zero value stored" % (
+                                rec, f["name"], ty.get("qualType"), " as a bit-field" if f.get("isBitfield") else "")
     return defs, rep
 
 
